@@ -28,7 +28,7 @@ EXPLANATION = (
     "mathematical fact, not checked."
 )
 ASSUMPTIONS = ["int.to_bytes(length, byteorder) as documented", "CRC-16 with generator x^16+x^15+x^2+1 detects all single/double-bit errors (for these frame lengths) and all bursts <= 16 bits (textbook property)"]
-FLOORS = {"C06.R1": 256, "C06.R2": 19, "C06.R3": 2, "C06.R4": 8, "C06.R5": 4}
+FLOORS = {"C06.R1": 256, "C06.R2": 19, "C06.R3": 2, "C06.R4": 6, "C06.R5": 4}
 
 CRC = "pyairtouch.comms.crc16"
 
@@ -170,6 +170,47 @@ def r3(ctx):
         ctx.check(ok, R, f"{gen}:registry:checksum_calculator", rm, inst, "checksum_calculator=Crc16Modbus()", norm_text(cc) if cc is not None else "missing")
 
 
+def _inline_helper(repo, m, e):
+    """f(x) with f a module-level function whose body is a single `return <expr>` -> <expr>[param := x]; else e."""
+    import copy
+
+    if isinstance(e, ast.Call) and isinstance(e.func, ast.Name) and e.func.id in m.functions and len(e.args) == 1 and not e.keywords:
+        fn = m.functions[e.func.id]
+        body = [st for st in fn.body if not (isinstance(st, ast.Expr) and isinstance(st.value, ast.Constant))]
+        if len(body) == 1 and isinstance(body[0], ast.Return) and body[0].value is not None and len(fn.args.args) == 1:
+            pname = fn.args.args[0].arg
+            arg = e.args[0]
+
+            class Sub(ast.NodeTransformer):
+                def visit_Name(self, n):
+                    return copy.deepcopy(arg) if n.id == pname else n
+
+            return Sub().visit(copy.deepcopy(body[0].value))
+    return e
+
+
+def _span(ctx, hm, f, node, expr, base_pred, size):
+    """(lo, hi, text) of a checksum span expression when it is a constant-position slice of the header buffer; else (None, None, text)."""
+    e = _inline_helper(ctx.repo, hm, expr)
+    # unwrap bytes(...)
+    while isinstance(e, ast.Call) and dotted(e.func) in ("bytes", "bytearray", "memoryview") and len(e.args) == 1:
+        e = e.args[0]
+    if isinstance(e, ast.Subscript) and isinstance(e.slice, ast.Slice) and e.slice.step is None and base_pred(e.value):
+        lo = ctx.repo.try_fold(hm, e.slice.lower) if e.slice.lower is not None else 0
+        hi = ctx.repo.try_fold(hm, e.slice.upper) if e.slice.upper is not None else size
+        # nested slice buffer[:size][k:]
+        return lo, hi, norm_text(e)
+    if isinstance(e, ast.Subscript) and isinstance(e.slice, ast.Slice) and isinstance(e.value, ast.Subscript) and isinstance(e.value.slice, ast.Slice) and base_pred(e.value.value):
+        inner = e.value.slice
+        ilo = ctx.repo.try_fold(hm, inner.lower) if inner.lower is not None else 0
+        ihi = ctx.repo.try_fold(hm, inner.upper) if inner.upper is not None else size
+        lo = ctx.repo.try_fold(hm, e.slice.lower) if e.slice.lower is not None else 0
+        hi = ctx.repo.try_fold(hm, e.slice.upper) if e.slice.upper is not None else None
+        if all(isinstance(x, int) for x in (ilo, ihi, lo)) and (hi is None or isinstance(hi, int)):
+            return ilo + lo, (ihi if hi is None else min(ihi, ilo + hi)), norm_text(e)
+    return None, None, norm_text(e)
+
+
 def r4(ctx):
     R = "C06.R4"
     for gen in ("at4", "at5"):
@@ -188,20 +229,17 @@ def r4(ctx):
             if dotted(a) and dotted(a).endswith(".to_address"):
                 to_slot = st.slots[i]
         ctx.require(to_slot is not None, f"{hm.relpath}: header.to_address is not packed")
-        start = ctx.repo.try_fold(hm, hm.get_const_expr("_CHECKSUM_DATA_START"))
-        ctx.check(start == to_slot.offset, R, f"{gen}:_CHECKSUM_DATA_START", hm, hm.assign_nodes["_CHECKSUM_DATA_START"], f"{to_slot.offset}: the span starts at the to-address byte (prefix{' and outer header' if gen == 'at5' else ''} excluded)", repr(start))
-        # encoder: checksum_data = header_bytes[START:]
-        res = [c for n, c in enc.calls("HeaderEncodeResult")]
+        want = f"[{to_slot.offset}:{st.size}]"
+        res = [(n, c) for n, c in enc.calls("HeaderEncodeResult")]
         ok = False
         found = "no HeaderEncodeResult"
-        for c in res:
+        for node, c in res:
             kw = {k.arg: k.value for k in c.keywords}
             hb, cd = kw.get("header_bytes"), kw.get("checksum_data")
             if hb is None or cd is None:
                 continue
-            node = next(n for n, cc in enc.calls("HeaderEncodeResult") if cc is c)
 
-            def is_packed(e):
+            def is_packed(e, node=node):
                 if e is pc:
                     return True
                 if isinstance(e, ast.Name):
@@ -209,27 +247,22 @@ def r4(ctx):
                     return u is not None and u[1] is pc
                 return False
 
-            ok_hb = is_packed(hb)
-            sl = cd
-            found = norm_text(cd)
-            if isinstance(sl, ast.Subscript) and isinstance(sl.slice, ast.Slice):
-                lo = ctx.repo.try_fold(hm, sl.slice.lower) if sl.slice.lower is not None else 0
-                hi = ctx.repo.try_fold(hm, sl.slice.upper) if sl.slice.upper is not None else st.size
-                ok = ok_hb and is_packed(sl.value) and lo == to_slot.offset and hi == st.size and sl.slice.step is None
-                found = f"{norm_text(sl.value)}[{lo}:{hi}]" + ("" if ok_hb else "; header_bytes is not the packed header")
-        ctx.check(ok, R, f"{gen}:HeaderEncoder:checksum_data", hm, enc.node, f"checksum_data = header_bytes[{to_slot.offset}:{st.size}] of the packed header", found)
-        res = [c for n, c in dec.calls("HeaderDecodeResult")]
+            lo, hi, txt = _span(ctx, hm, enc, node, cd, is_packed, st.size)
+            ok = is_packed(hb) and lo == to_slot.offset and hi == st.size
+            found = (f"header_bytes[{lo}:{hi}]" if lo is not None else f"`{txt}` is not a fixed-position slice of the packed header (a value-dependent span changes with the bytes it contains)") + ("" if is_packed(hb) else "; header_bytes is not the packed header")
+        ctx.check(ok, R, f"{gen}:HeaderEncoder:checksum_data", hm, enc.node, f"checksum_data = header_bytes{want}: from the to-address byte to the end of the header (prefix{' and outer header' if gen == 'at5' else ''} excluded)", found)
+        res = [(n, c) for n, c in dec.calls("HeaderDecodeResult")]
         ok = False
         found = "no HeaderDecodeResult"
-        for c in res:
+        for node, c in res:
             kw = {k.arg: k.value for k in c.keywords}
             cd = kw.get("checksum_data")
-            if isinstance(cd, ast.Subscript) and isinstance(cd.slice, ast.Slice):
-                lo = ctx.repo.try_fold(hm, cd.slice.lower) if cd.slice.lower is not None else 0
-                hi = ctx.repo.try_fold(hm, cd.slice.upper) if cd.slice.upper is not None else None
-                ok = dotted(cd.value) == dec.params[1] and lo == to_slot.offset and hi == st.size
-                found = f"{norm_text(cd.value)}[{lo}:{hi}]"
-        ctx.check(ok, R, f"{gen}:HeaderDecoder:checksum_data", hm, dec.node, f"checksum_data = buffer[{to_slot.offset}:{st.size}] (same span as the encoder)", found)
+            if cd is None:
+                continue
+            lo, hi, txt = _span(ctx, hm, dec, node, cd, lambda e: dotted(e) == dec.params[1], None)
+            ok = lo == to_slot.offset and hi == st.size
+            found = f"{dec.params[1]}[{lo}:{hi}]" if lo is not None else f"`{txt}` is not a fixed-position slice of the received header"
+        ctx.check(ok, R, f"{gen}:HeaderDecoder:checksum_data", hm, dec.node, f"checksum_data = buffer{want} (same span as the encoder)", found)
     # socket: write path (C01.R1 checks the full expression) and read path
     rd = sock_fn(ctx, "_read_one_message")
     m = rd.module
@@ -246,6 +279,13 @@ def r4(ctx):
             want = [f"self._registry.header_decoder.decode({bufs[0]}).checksum_data", bufs[1]]
             ok = terms == want and dotted(c.args[1]) == bufs[2]
             found = f"validate({' + '.join(terms)}, {norm_text(c.args[1])})"
+            if ok:
+                for nm, (rn, _) in zip(bufs, exact):
+                    ds = rd.defs_reaching(nm, n)
+                    if ds != [rn]:
+                        ok = False
+                        other = [d for d in ds if d is not rn]
+                        found = f"`{nm}` may have been rebound between the read and the validation (line {other[0].lineno}: {norm_text(other[0].ast)[:70]})" if other else f"`{nm}` is not the value read from the stream"
     ctx.check(ok, R, "_read_one_message:validated-span", m, rd.node, "validate(header_result.checksum_data + <payload bytes>, <the two bytes read last>)", found)
     w = sock_fn(ctx, "_write")
     cs = w.calls("checksum_calculator.calculate")
